@@ -72,7 +72,7 @@ pub fn run_batch(prop: Prop, seed: u64, first: u64, runs: u64, threads: usize, k
                         let idx = idx1 - 1;
                         let scn = generate(prop, seed, idx);
                         let sig = format!("hang/{}", scn.world);
-                        let rp = Replay { property: prop.id().into(), signature: sig.clone(), detail: format!("run {} did not finish within {} ms", idx, limit_ms), origin: format!("seed={} run={}", seed, idx), digest: None, scenario: scn };
+                        let rp = Replay { property: prop.id().into(), signature: sig.clone(), detail: format!("run {} did not finish within {} ms", idx, limit_ms), origin: format!("seed={} run={}", seed, idx), digest: None, prelude: Vec::new(), scenario: scn };
                         let path = format!("{}/replays/{}-hang-{}.replay", verif_dir(), prop.id(), idx);
                         let _ = std::fs::create_dir_all(format!("{}/replays", verif_dir()));
                         let _ = std::fs::write(&path, rp.to_text());
@@ -281,23 +281,7 @@ pub fn check(o: &CheckOpts) -> i32 {
         return 2;
     }
 
-    // determinism proof: a sample of runs re-executed twice at worker counts 1 and N
     let mut det = (0u64, 0u64);
-    if o.determinism_runs > 0 {
-        let a = run_batch(prop, o.seed, 0, o.determinism_runs, 1, true);
-        let b = run_batch(prop, o.seed, 0, o.determinism_runs, o.threads, true);
-        let mut da = a.stats.digests;
-        let mut db = b.stats.digests;
-        da.sort();
-        db.sort();
-        det.0 = da.len() as u64;
-        det.1 = da.iter().zip(db.iter()).filter(|(x, y)| x != y).count() as u64 + (da.len() as i64 - db.len() as i64).unsigned_abs();
-        if det.1 > 0 {
-            eprintln!("HARNESS-ERROR: nondeterminism: {} of {} runs have different event-log digests on re-execution", det.1, det.0);
-            return 2;
-        }
-    }
-
     // triage violations: minimise, write replay, verify in a fresh process, match known findings
     let mut exit = 0;
     let mut new_violations = 0u64;
@@ -311,37 +295,106 @@ pub fn check(o: &CheckOpts) -> i32 {
         }
         reported += 1;
         let scn = generate(prop, o.seed, *idx);
-        if !reproduces(&scn, prop, sig) {
-            eprintln!("HARNESS-ERROR: run {} violation `{}` does not reproduce from its regenerated scenario", idx, sig);
-            return 2;
-        }
-        let (min, tries) = minimise(&scn, prop, sig, 2000);
-        let min_ctx = harness_catch(|| execute(&min, prop)).ok();
-        let min_digest = min_ctx.as_ref().map(|c| c.digest);
-        let det2 = min_ctx.and_then(|c| c.violations.into_iter().find(|v| &v.sig == sig)).map(|v| v.detail).unwrap_or(detail.clone());
-        let rp = Replay {
-            property: prop.id().into(),
-            signature: sig.clone(),
-            digest: min_digest,
-            detail: det2.clone(),
-            origin: format!("VERIF_SEED={} tier={} run={} world={} items {}->{} after {} re-executions", o.seed, o.tier.name(), idx, scn.world, scn.items.len(), min.items.len(), tries),
-            scenario: min,
+        // in isolation (a fresh thread, so no thread-local state of earlier runs is visible)
+        let single_ok = {
+            let scn = scn.clone();
+            let sig = sig.clone();
+            std::thread::spawn(move || reproduces(&scn, prop, &sig)).join().unwrap_or(false)
         };
-        let path = format!("{}/replays/{}-{}.replay", verif_dir(), prop.id(), sig_file_part(sig));
-        if let Err(e) = std::fs::write(&path, rp.to_text()) {
-            eprintln!("HARNESS-ERROR: cannot write {}: {}", path, e);
-            return 2;
+        let mut path = format!("{}/replays/{}-{}.replay", verif_dir(), prop.id(), sig_file_part(sig));
+        let mut det2 = detail.clone();
+        let mut ok = false;
+        if single_ok {
+            let (min, tries) = minimise(&scn, prop, sig, 2000);
+            let min_ctx = harness_catch(|| execute(&min, prop)).ok();
+            let min_digest = min_ctx.as_ref().map(|c| c.digest);
+            det2 = min_ctx.and_then(|c| c.violations.into_iter().find(|v| &v.sig == sig)).map(|v| v.detail).unwrap_or(detail.clone());
+            let rp = Replay {
+                property: prop.id().into(),
+                signature: sig.clone(),
+                digest: min_digest,
+                prelude: Vec::new(),
+                detail: det2.clone(),
+                origin: format!("VERIF_SEED={} tier={} run={} world={} items {}->{} after {} re-executions", o.seed, o.tier.name(), idx, scn.world, scn.items.len(), min.items.len(), tries),
+                scenario: min,
+            };
+            if let Err(e) = std::fs::write(&path, rp.to_text()) {
+                eprintln!("HARNESS-ERROR: cannot write {}: {}", path, e);
+                return 2;
+            }
+            // fresh-process replay must reproduce exactly
+            let exe = std::env::current_exe().unwrap();
+            let out = std::process::Command::new(exe).arg("replay").arg(&path).output();
+            ok = match out {
+                Ok(o) => o.status.code() == Some(1) && String::from_utf8_lossy(&o.stdout).contains(&format!("REPRODUCED signature={}", sig)) && String::from_utf8_lossy(&o.stdout).contains("digest-match=yes"),
+                Err(_) => false,
+            };
         }
-        // fresh-process replay must reproduce exactly
-        let exe = std::env::current_exe().unwrap();
-        let out = std::process::Command::new(exe).arg("replay").arg(&path).output();
-        let ok = match out {
-            Ok(o) => o.status.code() == Some(1) && String::from_utf8_lossy(&o.stdout).contains(&format!("REPRODUCED signature={}", sig)) && String::from_utf8_lossy(&o.stdout).contains("digest-match=yes"),
-            Err(_) => false,
-        };
         if !ok {
-            eprintln!("HARNESS-ERROR: replay of {} in a fresh process did not reproduce `{}`", path, sig);
-            return 2;
+            // The violation may depend on state the code under test keeps ACROSS calls (a static or
+            // thread-local): then the schedule that matters includes the runs the same worker executed
+            // before. Workers take chunks of 32 consecutive run indices, so replay the chunk prefix in
+            // order, in one thread of a fresh process, and reduce it.
+            let chunk_start = idx - (idx % 32);
+            let mut prelude: Vec<Scenario> = (chunk_start..*idx).map(|i| generate(prop, o.seed, i)).collect();
+            let fin = generate(prop, o.seed, *idx);
+            let seq_reproduces = |pre: &[Scenario]| -> bool {
+                // a fresh thread has fresh thread-locals; statics are only reset by the fresh process below
+                let pre = pre.to_vec();
+                let fin = fin.clone();
+                let sig = sig.clone();
+                std::thread::spawn(move || {
+                    for p in &pre {
+                        let _ = harness_catch(|| execute(p, prop));
+                    }
+                    reproduces(&fin, prop, &sig)
+                })
+                .join()
+                .unwrap_or(false)
+            };
+            if !seq_reproduces(&prelude) {
+                eprintln!("HARNESS-ERROR: replay of {} in a fresh process did not reproduce `{}` (nor does the worker's preceding chunk of runs)", path, sig);
+                return 2;
+            }
+            // drop prelude runs that are not needed
+            let mut i = 0;
+            while i < prelude.len() {
+                let mut cand = prelude.clone();
+                cand.remove(i);
+                if seq_reproduces(&cand) {
+                    prelude = cand;
+                } else {
+                    i += 1;
+                }
+            }
+            det2 = if prelude.is_empty() {
+                format!("{}\nHISTORY-DEPENDENT: the code under test keeps state across calls; the violation needs the complete (unminimised) operation sequence of this run", det2)
+            } else {
+                format!("{}\nHISTORY-DEPENDENT: the code under test keeps state across calls; the violation needs the {} preceding run(s) recorded in this file", det2, prelude.len())
+            };
+            let rp = Replay {
+                property: prop.id().into(),
+                signature: sig.clone(),
+                digest: None,
+                prelude,
+                detail: det2.clone(),
+                origin: format!("VERIF_SEED={} tier={} run={} world={} with preceding runs of the same worker chunk", o.seed, o.tier.name(), idx, fin.world),
+                scenario: fin.clone(),
+            };
+            path = format!("{}/replays/{}-{}-history.replay", verif_dir(), prop.id(), sig_file_part(sig));
+            if let Err(e) = std::fs::write(&path, rp.to_text()) {
+                eprintln!("HARNESS-ERROR: cannot write {}: {}", path, e);
+                return 2;
+            }
+            let exe = std::env::current_exe().unwrap();
+            let ok2 = match std::process::Command::new(exe).arg("replay").arg(&path).output() {
+                Ok(o) => o.status.code() == Some(1) && String::from_utf8_lossy(&o.stdout).contains(&format!("REPRODUCED signature={}", sig)),
+                Err(_) => false,
+            };
+            if !ok2 {
+                eprintln!("HARNESS-ERROR: history replay {} in a fresh process did not reproduce `{}`", path, sig);
+                return 2;
+            }
         }
         let known = findings.iter().find(|f| f.property == prop.id() && f.signature == *sig && f.status == "known");
         match known {
@@ -358,6 +411,24 @@ pub fn check(o: &CheckOpts) -> i32 {
                 new_violations += 1;
                 exit = 1;
             }
+        }
+    }
+
+    // determinism proof: a sample of runs re-executed twice at worker counts 1 and N
+    // (skipped when a new violation was found: the verdict is already 'violated', and code under
+    // test that keeps hidden state across calls would make the digests differ for that very reason)
+    if o.determinism_runs > 0 && new_violations == 0 {
+        let a = run_batch(prop, o.seed, 0, o.determinism_runs, 1, true);
+        let b = run_batch(prop, o.seed, 0, o.determinism_runs, o.threads, true);
+        let mut da = a.stats.digests;
+        let mut db = b.stats.digests;
+        da.sort();
+        db.sort();
+        det.0 = da.len() as u64;
+        det.1 = da.iter().zip(db.iter()).filter(|(x, y)| x != y).count() as u64 + (da.len() as i64 - db.len() as i64).unsigned_abs();
+        if det.1 > 0 {
+            eprintln!("HARNESS-ERROR: nondeterminism: {} of {} runs have different event-log digests on re-execution", det.1, det.0);
+            return 2;
         }
     }
 
@@ -486,7 +557,11 @@ pub fn replay(path: &str) -> i32 {
     let limit_ms: u64 = std::env::var("WIRESIM_HANG_MS").ok().and_then(|v| v.parse().ok()).unwrap_or(60_000);
     let (tx, rx) = std::sync::mpsc::channel();
     let scn = rp.scenario.clone();
+    let pre = rp.prelude.clone();
     std::thread::spawn(move || {
+        for p in &pre {
+            let _ = harness_catch(|| execute(p, prop));
+        }
         let _ = tx.send(harness_catch(|| execute(&scn, prop)));
     });
     let ctx = match rx.recv_timeout(std::time::Duration::from_millis(limit_ms)) {
@@ -507,6 +582,9 @@ pub fn replay(path: &str) -> i32 {
             std::process::exit(1);
         }
     };
+    if !rp.prelude.is_empty() {
+        println!("replay: {} preceding run(s) executed first in the same thread", rp.prelude.len());
+    }
     println!("replay: property={} world={} items={} digest={:016x}", rp.property, rp.scenario.world, rp.scenario.items.len(), ctx.digest);
     let mut hit = false;
     for v in &ctx.violations {
